@@ -93,6 +93,7 @@ fn main() {
         "hello" => hello::cmd_hello(&args[2..]),
         #[cfg(feature = "serialize")]
         "ser" => ser::cmd_ser(&args[2..]),
+        "sweep-ext" => sweeps::cmd_ext(&args[2..]),
         "sweep-sites" => sweeps::cmd_sites(&args[2..]),
         "states-sweep" => states::cmd_sweep(&args[2..]),
         "states-run" => states::cmd_run(&args[2..]),
